@@ -77,8 +77,10 @@ CHECKS = {
    text='Proof (Coq): tree-level model of odf/load.py and of the XML part of opendocument.load (parts in order settings, meta, content, '
         'styles; section routing; font-face-decls of content.xml skipped; every element through build_caches with style registration, '
         'renaming and redirection); composed with the renderers (C12) and the XML round trip (C01/C02): for every document whose '
-        'sections hold elements only and whose registered style names do not clash, loading the four rendered parts gives the document '
-        'with every tree normalised as a parser normalises it, the generator replaced by exactly one naming the library, and the '
+        'registered style names do not clash - its eight sections holding anything: elements, text between them, CDATA, white space '
+        'only (C04_roundtrip_any_sections; element-only sections are the special case C04_roundtrip) - loading the four rendered parts '
+        'gives the document with every tree normalised as a parser normalises it and each section\'s children kept by the loader\'s '
+        'rule (all when an element is among them, none otherwise), the generator replaced by exactly one naming the library, and the '
         'automatic styles that content.xml and styles.xml carry (the referenced ones: C10); attaching a clash-free subtree is the '
         'identity at any depth (induction over trees). Second generation: for a document that is already canonical and whose two parts '
         'use automatic styles of different names, the loaded document is the original with normalised metadata and the used automatic '
@@ -93,9 +95,10 @@ CHECKS = {
         'character data between and inside them, unknown elements) without a style-name clash, the loader yields an explicit document: '
         'each section holds, in load order, the kept children of the source sections routed to it (all children when the section has an '
         'element child, none otherwise); subtrees are attached unchanged at any depth; the font declarations of content.xml are never '
-        'read, those of styles.xml are; and saving that document gives parts that parse back to it normalised (C04 applied to the '
-        'loaded document). Not proved: the package level (other members, media types: C03/C16 theorems and the oracle) and sources whose '
-        'sections hold character data (the re-save theorem needs element-only sections). Tied by correspondence of xml_parse + load_doc '
+        'read, those of styles.xml are; what load() returns always has its eight sections in the general form (C05_loaded_shape), and '
+        'saving it gives parts that parse back to it normalised - C05_resave_any, with no condition on the source: a pretty-printed '
+        'source, whose white space between the children of a section is kept by load(), is covered (general round trip of C04). '
+        'Not proved: the package level (other members, media types: C03/C16 theorems and the oracle). Tied by correspondence of xml_parse + load_doc '
         'with load() on every sample document of the repository, ten structure-preserving mutations of each and synthetic packages, '
         'and judged by an independent source-vs-saved comparison (zipfile + expat).',
    note='Axioms: none. White space is ignored by the oracle only where the schema gives element-only content.',
